@@ -519,6 +519,10 @@ class VtkProfile(StoreProfile):
             "foreign": rng.random() < 0.3,
             "longcoord": False,
         }
+        if rng.random() < 0.05:
+            cfg["faroffset"] = True
+            cfg["max_subs"] = 0
+            return cfg
         if rng.random() < 0.06:
             # generic sixteen-digit corners at unit scale. The recorded finding C16/read.raised/.../txt-long-coordinates
             # (text form + subregions, replayed from findings/C16) is avoided: either no text form or no subregions
@@ -539,6 +543,17 @@ class VtkProfile(StoreProfile):
         paths = sorted(st.paths)
         if not [s for s, (_, f) in st.f.items() if f.mesh.region.ndim == 3] or (len(st.f) < cfg["nfields"] and rng.random() < 0.35):
             o = self.draw_field(rng, st, out, 3, 150, cfg["max_subs"], False, cfg["reps"])
+            if cfg.get("faroffset"):
+                # a mesh far from the origin compared with its cell (offset/cell of 1e6 .. 1e8, no subregions):
+                # "any scale/offset"; the text form still keeps ten digits of every coordinate
+                m = o["mesh"]
+                n = m["n"]
+                cells = [rng.choice([0.0123, 0.0235, 0.05, rng.uniform(0.01, 0.05), rng.uniform(0.01, 0.05)]) for _ in range(3)]
+                pmin = [rng.choice([-1, 1]) * rng.choice([123456.789, 234567.89, 314159.27, 1048576.5, 99999.5]) for _ in range(3)]
+                m["p1"], m["p2"] = pmin, [a + k * c for a, k, c in zip(pmin, n, cells)]
+                m["subs"] = []
+                m.pop("intcorners", None)
+                m.pop("intsubs", None)
             if cfg.get("longcoord"):
                 # corners with all sixteen digits at unit scale (the coordinates of every other run survive
                 # the ten digits of the text form): region and subregions shifted by one generic vector
